@@ -3,6 +3,8 @@ package sim
 import (
 	"bytes"
 	"fmt"
+
+	"github.com/enfein/mieru/v3/pkg/metrics"
 	"runtime/pprof"
 	"strings"
 	"sync"
@@ -196,6 +198,9 @@ func (w *World) finalChecks(capHit bool) {
 			}
 		}
 	}
+	if s.Property == "C19" {
+		w.quotaChecks(sess)
+	}
 	faulty := w.datagramFaultsConfigured() || len(s.Net.Stream) > 0
 	if faulty {
 		w.mu.Lock()
@@ -268,4 +273,75 @@ func (w *World) singleAcceptLoopBlocked() bool {
 	errs := w.acceptErrs
 	w.mu.Unlock()
 	return errs > 0 && w.Tap.hostileSessionsOpened() > 0
+}
+
+// quotaChecks: C19 end to end. Per user, the server's upload/download counters
+// equal what the server application read/wrote; a user whose counted traffic
+// exceeded the allowance has new sessions refused with nothing handed to the
+// application; users within their allowance (and other users) are never refused.
+func (w *World) quotaChecks(sess []*sessRT) {
+	s := w.Spec
+	for _, u := range s.Server.Users {
+		g := metrics.GetMetricGroupByName(fmt.Sprintf(metrics.UserMetricGroupFormat, u.Name))
+		w.mu.Lock()
+		up, down := w.userUp[u.Name], w.userDown[u.Name]
+		w.mu.Unlock()
+		var mup, mdown int64
+		if g != nil {
+			if m, ok := g.GetMetric(metrics.UserMetricUploadBytes); ok {
+				mup = m.Load()
+			}
+			if m, ok := g.GetMetric(metrics.UserMetricDownloadBytes); ok {
+				mdown = m.Load()
+			}
+		}
+		w.addCheck(1)
+		if mup != up {
+			w.violate("C19", "upload-counter-differs", "user %s: UploadBytes=%d but the server application read %d bytes from this user's sessions", u.Name, mup, up)
+		}
+		if mdown != down {
+			w.violate("C19", "download-counter-differs", "user %s: DownloadBytes=%d but the server application wrote %d bytes to this user's sessions", u.Name, mdown, down)
+		}
+	}
+	for _, rt := range sess {
+		if !rt.dialled {
+			continue
+		}
+		u := s.Server.Users[rt.cli.spec.User]
+		mustRefuse, mustAccept := false, true
+		for _, q := range u.Quotas {
+			lo, hi := rt.totalAtDial0, rt.totalAtDial1
+			if lo >= int64(q.Megabytes+1)*1048576 {
+				mustRefuse = true
+			}
+			if hi > int64(q.Megabytes)*1000000 {
+				mustAccept = false
+			}
+		}
+		w.addCheck(1)
+		refused := rt.dialErr != "" || (rt.sconn == nil && rt.dirs[1].readEnd != "" && rt.dirs[1].read == 0 && rt.dirs[1].expected > 0)
+		if mustRefuse {
+			w.probe("quota-session-over-allowance")
+			if rt.sconn != nil {
+				tr := rt.cli.spec.Transport
+				mode := "standard"
+				if rt.cli.spec.NoWait {
+					mode = "nowait"
+				}
+				w.violate("C19", "over-quota-session-reached-application:"+tr+":"+mode, "%s: user %s had %d bytes counted (allowance %v) when it opened this session, yet Server.Accept returned it and the application read %d bytes of it", rt.key, u.Name, rt.totalAtDial0, u.Quotas, rt.dirs[0].read)
+			}
+			if !refused {
+				w.violate("C19", "over-quota-session-not-refused", "%s: user %s had %d bytes counted (allowance %v) but the new session was not refused (client read %d bytes)", rt.key, u.Name, rt.totalAtDial0, u.Quotas, rt.dirs[1].read)
+			} else if !w.Tap.sawQuotaClose(rt) {
+				w.violate("C19", "refusal-without-quota-status", "%s: over-quota session refused, but no close request with the quota status was seen on the wire", rt.key)
+			}
+		} else if mustAccept {
+			w.probe("quota-session-within-allowance")
+			if rt.dialErr != "" && !w.destroyingFaults() {
+				w.violate("C19", "within-quota-session-refused", "%s: user %s had at most %d bytes counted (allowance %v) but its new session failed: %s", rt.key, u.Name, rt.totalAtDial1, u.Quotas, rt.dialErr)
+			}
+		} else {
+			w.probe("quota-session-at-threshold")
+		}
+	}
 }
